@@ -370,7 +370,7 @@ func c01Repeats(ctx *core.Ctx) {
 		}
 		ctx.Count("repeat-" + rep)
 		ctx.Count("repeat-pos-" + pos)
-		ctx.Add("c01load", c01Args{Req: *req, Mode: mode, Shape: "repeat/" + pos + "/" + s.name() + "/" + fmt.Sprint(a)})
+		ctx.Add("c01load", c01Args{Req: *req, Mode: mode, Delivery: c01DrawDelivery(ctx), Shape: "repeat/" + pos + "/" + s.name() + "/" + fmt.Sprint(a)})
 	}
 	for _, s := range sites {
 		if len(s.pool) == 0 {
